@@ -1018,15 +1018,22 @@ def _contexts_active_by_referents(frame: types.FrameType, origin: Any) -> List[C
         # theirs (isinstance() would consult a __class__ property, and raise
         # for a dead weakref proxy).
         referent_type = type(referent)
-        if issubclass(referent_type, types.MethodType):
-            name = getattr(referent.__func__, "__name__", None)
-        elif issubclass(referent_type, types.BuiltinMethodType):
-            # Context managers implemented in C (threading.Lock, io objects,
-            # memoryview, ...) have builtin methods rather than bound methods
-            name = referent.__name__
-        else:
+        try:
+            if issubclass(referent_type, types.MethodType):
+                name = getattr(referent.__func__, "__name__", None)
+            elif issubclass(referent_type, types.BuiltinMethodType):
+                # Context managers implemented in C (threading.Lock, io
+                # objects, memoryview, ...) have builtin methods rather
+                # than bound methods
+                name = referent.__name__
+            else:
+                continue
+        except Exception:
+            # (a bound method of some callable object that won't tell us
+            # its name: not what a with statement left there, and no reason
+            # to lose the managers that we can find)
             continue
-        if name in ("__exit__", "__aexit__"):
+        if type(name) is str and name in ("__exit__", "__aexit__"):
             # 'with' and 'async with' statements push a reference to the
             # __exit__ or __aexit__ method that they'll call when exiting.
             ret.append(
